@@ -83,11 +83,17 @@ theorem qsortAux_perm [DecidableEq α] (lt : α → α → Bool) : ∀ (f : Nat)
         | none => rw [h1] at h; simp at h
         | some r =>
           rw [h1, Option.bind_some] at h
-          cases h2 : qsortAux lt f r.1 a (r.2.2 - a) with
-          | none => rw [h2] at h; simp at h
-          | some xs' =>
-            rw [h2, Option.bind_some] at h
-            exact ((ih xs' _ _ ys h).trans (ih r.1 _ _ xs' h2)).trans (partLoop_perm lt p _ _ xs _ _ r h1)
+          split at h
+          · cases h2 : qsortAux lt f r.1 a (r.2.2 - a) with
+            | none => rw [h2] at h; simp at h
+            | some xs' =>
+              rw [h2, Option.bind_some] at h
+              exact ((ih xs' _ _ ys h).trans (ih r.1 _ _ xs' h2)).trans (partLoop_perm lt p _ _ xs _ _ r h1)
+          · cases h2 : qsortAux lt f r.1 r.2.1 (a + n - r.2.1) with
+            | none => rw [h2] at h; simp at h
+            | some xs' =>
+              rw [h2, Option.bind_some] at h
+              exact ((ih xs' _ _ ys h).trans (ih r.1 _ _ xs' h2)).trans (partLoop_perm lt p _ _ xs _ _ r h1)
 
 theorem qsortList_perm [DecidableEq α] (lt : α → α → Bool) {xs ys : List α} (h : qsortList lt xs = some ys) : ys.Perm xs :=
   qsortAux_perm lt _ xs _ _ ys h
